@@ -13,6 +13,8 @@ package main
 //  (F) the --tmux popup proxy under a private tmux server: see c14tmux.go
 //  (G) commands that cannot be started (shell missing / not executable, command line over the kernel's limit): the
 //      reader hand-shake through a hook and whole sessions: see c14nostart.go
+//  (H) mouse gestures (press, motion with the button held to and beyond the screen edges, release) over random layouts:
+//      see c14mouse.go
 import (
 	"bytes"
 	"encoding/json"
@@ -62,6 +64,7 @@ type c14Case struct {
 	Fail     string   `json:"fail,omitempty"`     // why: noent notinpath noexec dir shellenv e2big-plus e2big-line e2big-query | ok cmdfails
 	Probe    []string `json:"probe,omitempty"`    // nostart: what is asked of fzf afterwards (search reload)
 	Ready    *c14Ready `json:"ready,omitempty"`   // ready: one reader run through the hook
+	Profile  string   `json:"profile,omitempty"`  // robust: which generator made the case (mouse-sweep, mouse-free: c14mouse.go)
 }
 
 type c14Step struct {
@@ -168,6 +171,19 @@ func c14Start(c *Ctx, cs c14Case, id string) (*c14Run, error) {
 	return &c14Run{s: s, pid: c14Pid(s), mark: mark, slave: sl, id: id}, nil
 }
 
+// c14StartRetried: liveness of start-up (a first frame and an answer to GET / within 10 s) is an eventually-property:
+// retried twice before it is reported, as the robustness and cannot-be-started streams do (a loaded machine can stall a
+// start for longer than 10 s; a start that never succeeds is still reported).
+func c14StartRetried(c *Ctx, cs c14Case, id string) (r *c14Run, err error) {
+	for try := 0; try < 3; try++ {
+		r, err = c14Start(c, cs, id)
+		if err == nil || !strings.Contains(err.Error(), "did not start within") {
+			break
+		}
+	}
+	return r, err
+}
+
 // responsive: GET answers within 10 s (retried twice) or the process has exited
 func (r *c14Run) responsive() bool {
 	for try := 0; try < 3; try++ {
@@ -196,6 +212,9 @@ func (r *c14Run) step(st c14Step) {
 		}
 	case "keys":
 		c14SendKeys(s, r.slave, st.B)
+	case "mouse": // mouse reports of whole gestures: written in one piece, then wait until fzf has taken them (c14mouse.go)
+		c14SendKeys(s, r.slave, st.B)
+		c14WaitTaken(s, r.slave, 5*time.Second)
 	case "resize":
 		s.Resize(st.X, st.Y)
 	case "sleep":
@@ -518,7 +537,7 @@ func c14CrashText(s *Session) string {
 
 func c14Life(c *Ctx, cs c14Case, id string) {
 	rep := c.Rep
-	r, err := c14Start(c, cs, id)
+	r, err := c14StartRetried(c, cs, id)
 	if err != nil {
 		rep.Disagreement(Disagreement{Kind: "spec", Name: "life.starts", Input: cs, Impl: err.Error(), Expect: "fzf starts"})
 		return
@@ -696,7 +715,7 @@ func c14Startup(c *Ctx, cs c14Case) {
 
 func c14Tmp(c *Ctx, cs c14Case, id string) {
 	rep := c.Rep
-	r, err := c14Start(c, cs, id)
+	r, err := c14StartRetried(c, cs, id)
 	if err != nil {
 		rep.Disagreement(Disagreement{Kind: "spec", Name: "tmp.starts", Input: cs, Impl: err.Error(), Expect: "fzf starts"})
 		return
@@ -868,7 +887,7 @@ func c14GenKids(r *RNG, i int) c14Case {
 
 func c14Kids(c *Ctx, cs c14Case, id string) {
 	rep := c.Rep
-	r, err := c14Start(c, cs, id)
+	r, err := c14StartRetried(c, cs, id)
 	if err != nil {
 		rep.Disagreement(Disagreement{Kind: "spec", Name: "kids.starts", Input: cs, Impl: err.Error(), Expect: "fzf starts"})
 		return
@@ -1110,6 +1129,9 @@ func c14Robust(c *Ctx, cs c14Case, id string) {
 	rep.Eval(string(key), len(cs.Input) > 0)
 	rep.Count(fmt.Sprintf("robust:size<=%dx%d", bucket(cs.Cols), bucket(cs.Rows)))
 	rep.Count("robust:exit=" + cs.Exit)
+	if cs.Profile != "" {
+		rep.Count("robust:profile=" + cs.Profile)
+	}
 	rep.Sample(c14Short(cs))
 }
 
@@ -1181,7 +1203,7 @@ func c14Pool(c *Ctx, cases []c14Case, par int) {
 }
 
 func runC14(c *Ctx) {
-	c.Rep.Rule = "constrain: random (count,height,scroll-off,cy,offset), non-trivial = more items than rows; life cycle: 15 option sets x 10 exit paths with random execute/ctrl-z/hide-show/resize/typing in between, non-trivial = at least one step; temp files: scenario classes x random placeholders; robustness: random input/options/sizes/keys/actions/resizes, non-trivial = non-empty input; tmux proxy: 14 exit paths x random --tmux layouts, options, stdin kinds and triggers under a private tmux server, every one non-trivial; distinct by JSON of the case"
+	c.Rep.Rule = "constrain: random (count,height,scroll-off,cy,offset), non-trivial = more items than rows; life cycle: 15 option sets x 10 exit paths with random execute/ctrl-z/hide-show/resize/typing in between, non-trivial = at least one step; temp files: scenario classes x random placeholders; robustness: random input/options/sizes/keys/actions/resizes, non-trivial = non-empty input; tmux proxy: 14 exit paths x random --tmux layouts, options, stdin kinds and triggers under a private tmux server, every one non-trivial; mouse gestures: press-origin sweeps and random gestures over random layouts, non-trivial = non-empty input; distinct by JSON of the case"
 	if c.Replay != "" {
 		var cs c14Case
 		b, err := os.ReadFile(c.Replay)
@@ -1263,10 +1285,16 @@ func runC14(c *Ctx) {
 		tmuxCases = append(tmuxCases, c14GenTmux(c.Rng, i))
 	}
 	cases = append(tmuxCases, cases...)
+	// (H) mouse gestures (c14mouse.go); generated after everything else: the other streams keep their cases per seed
+	nm := c.N(50, 1500)
+	for i := 0; i < nm; i++ {
+		cases = append(cases, c14GenMouse(c.Rng, i))
+	}
+	c14MouseModel(c, c.N(200, 5000))
 	if only := os.Getenv("C14_ONLY"); only != "" { // debugging aid: restrict the session cases to one kind
 		kept := []c14Case{}
 		for _, cs := range cases {
-			if cs.Kind == only && (os.Getenv("C14_EXIT") == "" || cs.Exit == os.Getenv("C14_EXIT")) {
+			if cs.Kind == only && (os.Getenv("C14_PROFILE") == "" || cs.Profile == os.Getenv("C14_PROFILE")) && (os.Getenv("C14_EXIT") == "" || cs.Exit == os.Getenv("C14_EXIT")) {
 				kept = append(kept, cs)
 			}
 		}
